@@ -497,7 +497,7 @@ def stream_integrals(ctx):
             keep.append(('spinorb', c, (o, tw)))
         # --- molecule
         mol = of.chem.MolecularData(geometry=[('H', (0, 0, 0)), ('H', (0, 0, 0.7))], basis='sto-3g', multiplicity=1,
-                                    charge=0, filename='/tmp/w/H/_c17_never_written')
+                                    charge=0, filename='_c17_never_written')
         # (the entry below EQ_TOLERANCE only exercises the truncation branch of the expansion above)
         one = one.copy()
         one[np.abs(one) < 1e-8] = 0.0
@@ -1164,7 +1164,7 @@ def stream_indices(ctx):
         two = sym8(rng, n)
         nuc = rng.choice([0.0, 0.25])
         mol = of.chem.MolecularData(geometry=[('H', (0, 0, 0)), ('H', (0, 0, 0.7))], basis='sto-3g', multiplicity=1,
-                                    charge=0, filename='/tmp/w/H/_c17_never_written')
+                                    charge=0, filename='_c17_never_written')
         mol.one_body_integrals, mol.two_body_integrals, mol.nuclear_repulsion = one.copy(), two.copy(), nuc
         Hfull = molecular_dense(nuc, one, two)
         full_fo = get_fermion_operator(mol.get_molecular_hamiltonian())
@@ -1247,7 +1247,7 @@ def replay(ctx, payload):
             n, occ, act, nuc = inp['n_spatial'], inp['occupied_indices'], inp['active_indices'], inp['nuclear_repulsion']
             one, two = np.array(inp['one_body_integrals']), np.array(inp['two_body_integrals'])
             mol = of.chem.MolecularData(geometry=[('H', (0, 0, 0)), ('H', (0, 0, 0.7))], basis='sto-3g', multiplicity=1,
-                                        charge=0, filename='/tmp/w/H/_c17_never_written')
+                                        charge=0, filename='_c17_never_written')
             mol.one_body_integrals, mol.two_body_integrals, mol.nuclear_repulsion = one.copy(), two.copy(), nuc
             fn, frz = inp['fn'], inp['fn'] == 'freeze_orbitals'
             occ_so = [2 * i + sg for i in occ for sg in range(2)]
@@ -1410,7 +1410,7 @@ def replay(ctx, payload):
             if err(block - molecular_dense(nuc + core, np.array(o_new, dtype=float), np.array(t_new))) > TOL:
                 return False
             mol = of.chem.MolecularData(geometry=[('H', (0, 0, 0)), ('H', (0, 0, 0.7))], basis='sto-3g', multiplicity=1,
-                                        charge=0, filename='/tmp/w/H/_c17_never_written')
+                                        charge=0, filename='_c17_never_written')
             mol.one_body_integrals, mol.two_body_integrals, mol.nuclear_repulsion = one.copy(), two.copy(), nuc
             act_op = mol.get_molecular_hamiltonian(list(occ), list(act))
             m = len(act)
